@@ -14,6 +14,12 @@ class PathPruned(Exception):
     pass
 
 
+class LoopBack(Exception):
+    """the abstracted loop took its back edge: carries the values of the observed locals at the second visit of the header."""
+    def __init__(self, fn, values):
+        Exception.__init__(self, 'loop back edge of ' + fn); self.fn = fn; self.values = values
+
+
 class PanicPath(Exception):
     def __init__(self, msg, where=''):
         Exception.__init__(self, msg)
